@@ -1,4 +1,5 @@
 """C08 - withheld traffic reaches the sleeping node exactly once, in order."""
+from .. import core
 from ..lockprops import make_jobs, replay_lock, run_lock_job
 
 ID = "C08"
@@ -8,7 +9,12 @@ PROFILE = {"garbage": 0.05, "ctl": 0.25, "semicolon": False, "sleep": True, "ota
 
 def jobs(tier, seed):
     q = tier == "quick"
-    return make_jobs(seed, 32 if q else 128, 50 if q else 220, 80, ["2.0", "2.1", "2.2"], ["sync", "async"], PROFILE)
+    out = make_jobs(seed, 32 if q else 128, 50 if q else 220, 80, ["2.0", "2.1", "2.2"], ["sync", "async"], PROFILE)
+    # a controller thread calling set_child_value while the poll thread handles the node's wake-up (controlled scheduler)
+    for v in ("2.0", "2.2"):
+        for new_type in (True, False):
+            out.append({"kind": "sched", "version": v, "new_type": new_type, "bound": 1 if q else 2})
+    return out
 
 
 def normal_forms(res, cfg, steps, out):
@@ -25,11 +31,114 @@ def normal_forms(res, cfg, steps, out):
             res.count("controller_sets_refused")
 
 
+def run_sched(job):
+    """Two real threads under the sys.monitoring scheduler: A handles the wake-up line of a sleeping node (as the poll thread
+    does), B is the controller calling set_child_value for that node (a value type that has / has not been set before).
+    Every interleaving with at most `bound` preemptions at source-line granularity in the handlers, the sensor and the
+    gateway. Oracle: neither thread raises; the value set by B is sent in this burst or in the next one, exactly once;
+    the value that was already pending is sent exactly once in this burst."""
+    import inspect
+    import mysensors
+    import mysensors.handler as mh
+    import mysensors.sensor as msn
+    from mysensors import BaseSyncGateway
+    from ..core import Result
+    from ..drive import RecT
+    from ..linesched import Explorer
+
+    res = Result()
+    version, new_type = job["version"], job["new_type"]
+    wake = "1;255;3;0;32;500" if version >= "2.2" else "1;255;3;0;22;7"
+    codes = []
+
+    def nested(code):
+        for c in code.co_consts:
+            if hasattr(c, "co_code"):
+                yield c
+                yield from nested(c)
+
+    for mod in (mh, msn):
+        for _n, obj in inspect.getmembers(mod):
+            if inspect.isfunction(obj) and obj.__module__ == mod.__name__:
+                codes.append(obj.__code__)
+            elif inspect.isclass(obj) and obj.__module__ == mod.__name__:
+                for _m, f in inspect.getmembers(obj, inspect.isfunction):
+                    codes.append(f.__code__)
+    for _m, f in inspect.getmembers(mysensors.Gateway, inspect.isfunction):
+        codes.append(f.__code__)
+    codes += [c for top in list(codes) for c in nested(top)]
+    ex = Explorer(list(dict.fromkeys(codes)), "line")
+
+    def drain(gw):
+        while gw.tasks.queue:
+            gw.tasks.transport.send(gw.tasks.run_job())
+
+    def make(explorer):
+        t = RecT()
+        gw = BaseSyncGateway(t, protocol_version=version)
+        for line in (f"1;255;0;0;17;{version}", "1;1;0;0;4;dimmer", "1;1;1;0;2;0", "1;1;1;0;3;10", wake):
+            gw.tasks.add_job(gw.logic, line)
+            drain(gw)
+        gw.set_child_value(1, 1, 2, "1")          # pending desired V_STATUS
+        if not new_type:
+            gw.set_child_value(1, 1, 3, "20")     # V_PERCENTAGE has been set before as well
+        drain(gw)
+        n0 = len(t.log)
+        ctx = {"gw": gw, "t": t, "n0": n0}
+
+        def a():
+            gw.tasks.transport.send(gw.logic(wake))
+
+        def b():
+            gw.set_child_value(1, 1, 3, "50")
+        return a, b, ctx
+
+    ex.install()
+    try:
+        for run, ctx, stuck, sched in ex.explore(make, job["bound"], max_runs=4000):
+            res.evals += 1
+            res.count("controller_vs_wakeup_schedules")
+            case = {"kind": "sched", "version": version, "new_type": new_type, "schedule": sched, "bound": job["bound"]}
+            if stuck:
+                res.count("stuck_schedules")
+                continue
+            bad = False
+            for who, exc in run.errors.items():
+                role = "wake-up handling (poll thread)" if who == "A" else "set_child_value (controller thread)"
+                res.violation(f"sched:{'pump' if who == 'A' else 'controller'}-raises:{core.exc_sig(exc)}",
+                              f"{role} raised {type(exc).__name__}: {exc} under schedule {sched}", case)
+                bad = True
+            if bad:
+                continue
+            gw, t = ctx["gw"], ctx["t"]
+            drain(gw)
+            first = [l for l in t.log[ctx["n0"]:]]
+            gw.tasks.transport.send(gw.logic(wake))
+            drain(gw)
+            allsent = [l for l in t.log[ctx["n0"]:]]
+            n_status = sum(1 for l in first if l.startswith("1;1;1;") and l.rstrip().endswith(";2;1"))
+            n_new = sum(1 for l in allsent if l.startswith("1;1;1;") and l.rstrip().endswith(";3;50"))
+            if n_status != 1:
+                res.violation(f"sched:pending-value-sent-{n_status}-times", f"the value pending before the wake-up was sent {n_status} times in its burst ({first!r}) under schedule {sched}", case)
+            if n_new < 1:
+                res.violation("sched:concurrently-set-value-never-sent", f"the value set while the node woke up was sent neither in this burst nor in the next ({allsent!r}) under schedule {sched}", case)
+            if run.switches:
+                res.count("controller_vs_wakeup_schedules_with_real_interleaving")
+                res.nontrivial(("sched", version, new_type, sched["first"], tuple(i for i, c in enumerate(sched["choices"]) if c)))
+    finally:
+        ex.uninstall()
+    return res
+
+
 def run(job):
+    if job.get("kind") == "sched":
+        return run_sched(job)
     return run_lock_job(ID, job, normal_forms)
 
 
 def replay(case):
+    if case.get("kind") == "sched":
+        return run_sched({"kind": "sched", "version": case["version"], "new_type": case["new_type"], "bound": case.get("bound", 1)})
     return replay_lock(ID, case)
 
 
@@ -46,6 +155,7 @@ def finish(agg, tier):
                    ("bursts_with_desired_sets", c.get("bursts_with_desired_sets", 0), 300),
                    ("requests_answered_with_desired", c.get("requests_answered_with_desired", 0), 100),
                    ("desired_stored", c.get("desired_stored", 0), 500),
+                   ("controller_vs_wakeup_schedules_with_real_interleaving", c.get("controller_vs_wakeup_schedules_with_real_interleaving", 0), 300),
                    ("reloads", c.get("reloads", 0), 200)],
         "assumptions": ["in a third of the histories the node table goes through the persistence file (json / pickle) and back at random points: the tree survives, sleep state, withheld replies, desired values and reboot flags start empty",
                         "order among the desired-value sets of a burst and their ack flag are not judged"],
